@@ -216,7 +216,7 @@ class GVBase:
 
 def gen_gv(rng):
     """-> (global_vars, env pairs [[name, str(value)]], kind)"""
-    kind = rng.choice(['dict', 'dict', 'object', 'object', 'dictsub', 'defaultdict'])
+    kind = rng.choice(['dict', 'dict', 'object', 'object', 'dictsub', 'defaultdict', 'getattr-object'])
     k = rng.choice([0, 1, 2, 2, 3, 4, 5])
     names = rng.sample(DEF_NAMES, min(k, len(DEF_NAMES)))
     if kind != 'object' and rng.random() < 0.4:
@@ -226,6 +226,20 @@ def gen_gv(rng):
         gv = dict(vals)
     elif kind == 'dictsub':
         gv = type('GVDict', (dict,), {})(vals)
+    elif kind == 'getattr-object':
+        # a settings object that serves its names through `__getattr__` (nothing in `dir()`): defined is what `hasattr` says
+        class Served:
+            def __init__(self, vals_):
+                object.__setattr__(self, '_vals', dict(vals_))
+
+            def __getattr__(self, n):
+                try:
+                    return object.__getattribute__(self, '_vals')[n]
+                except KeyError:
+                    raise AttributeError(n)
+        Served.__module__ = 'gvmod'
+        gv = Served({n: v for n, v in vals.items() if n.isidentifier()})
+        vals = {n: v for n, v in vals.items() if n.isidentifier()}
     elif kind == 'defaultdict':
         # a mapping with a `__missing__` hook: a name it does not CONTAIN is undefined all the same (and looking must not add it)
         import collections
@@ -243,9 +257,10 @@ def gen_gv(rng):
             if n not in cls_attrs:
                 setattr(gv, n, vals[n])
     env = [[n, str(v)] for n, v in vals.items()]
-    if kind == 'object':
+    if kind in ('object', 'getattr-object'):
         env += [['__doc__', 'None'], ['__module__', 'gvmod']]
-    return gv, env, kind
+    # (for every consumer a `getattr-object` is an object: names are attributes)
+    return gv, env, 'object' if kind == 'getattr-object' else kind
 
 
 def alt_gv(rng, gv, env, kind):
